@@ -396,4 +396,39 @@ theorem lin_r_stale :
     (w.comp 0 1 = some 1) ∧ ((w.loci 0).toList ≠ []) := by
   decide +kernel
 
+/-! ### non-vacuity: a concrete reachable world satisfies `Good` (well-formed tables of every shipped model are checked by `decide`
+    in the generated `Tables.lean` on every run) -/
+
+/-- one tracking locus (0): the nodes of instance 0 in compartment 0 -/
+def cfgN : Comp.Cfg := { kind := fun i => if i = 0 then .node 0 0 else .plain, effects := fun inst c => if inst = 0 ∧ c = 0 then [0] else [] }
+
+/-- the path 0–1 with node 0 in compartment 0 and node 1 in compartment 1 -/
+def wN : W := { net := { nodes := [0, 1], adj := fun n => if n = 0 then [1] else if n = 1 then [0] else [] },
+                comp := fun i n => if i = 0 ∧ n = 0 then some 0 else if i = 0 ∧ n = 1 then some 1 else none,
+                loci := fun i => if i = 0 then TSet.empty.add (eN 0) else TSet.empty }
+
+example : Good cfgN wN := by
+  refine ⟨⟨?_, ?_, ?_⟩, by simp [wN], ?_, ?_⟩
+  · intro a b; simp only [wN]; by_cases ha : a = 0 <;> by_cases hb : b = 0 <;> by_cases ha1 : a = 1 <;> by_cases hb1 : b = 1 <;> simp_all
+  · intro x; simp only [wN]; split
+    · simp
+    · split <;> simp
+  · intro x y h; simp only [wN] at h ⊢; split at h
+    · simp_all
+    · split at h <;> simp_all
+  · intro inst n hn; simp only [wN, List.mem_cons, List.not_mem_nil, or_false, not_or] at hn ⊢; simp [hn.1, hn.2]
+  · intro i
+    by_cases hi : i = 0
+    · subst hi
+      show NSpec 0 0 wN (wN.loci 0)
+      intro e
+      simp only [wN, if_true, TSet.mem_add, TSet.mem_empty, Bool.false_eq_true, or_false]
+      constructor
+      · rintro rfl; exact ⟨0, rfl, by simp⟩
+      · rintro ⟨n, rfl, hn⟩
+        by_cases h0 : n = 0
+        · rw [h0]
+        · by_cases h1 : n = 1 <;> simp [h0, h1] at hn
+    · simp only [cfgN, hi, if_false]
+
 end C01
